@@ -8,6 +8,26 @@ COMMON_ASSUME = [
 ]
 
 PROPS = {
+    "C02": {
+        "units": [
+            {"pkg": "./c02", "shards": 6, "shards_thorough": 16, "timeout": 900},
+            {"pkg": "./c02c", "race": True, "shards": 2, "shards_thorough": 4, "timeout": 900},
+            {"pkg": "./mainpkg", "run": "^TestC02b", "shards": 2, "shards_thorough": 4, "timeout": 900},
+        ],
+        "fuzz": [{"pkg": "./c02", "target": "FuzzC02NewTable", "time": "300s"}],
+        "rule": ("(a) rapid-generated route-config texts from a line grammar (add/del/weight, comments, flexible spacing, CRLF) salted with hostile tokens: non-finite/huge/denormal/hex weights, "
+                 "glob metacharacters in hosts and paths, malformed URLs, junk allow/deny/redirect options, NUL / invalid UTF-8, lines > 64 KiB; plus []RouteDef values with extreme floats for NewTableCustom. "
+                 "Oracle: NewTable/NewTableCustom return exactly one of (table, error) and never panic; String/Dump and lookups with every picker x matcher x glob on/off x TLS on every host never panic; "
+                 "accepted tables have finite non-negative weights summing to 1; sentinel relation: text + one more 'route add' line, when accepted, contains that route (no partial table). "
+                 "(b) histories of 3-30 valid/invalid service and manual updates through the real main.go update loop fed by a fake registry backend: the active table always equals the table of the last valid "
+                 "combined text; SetTable(nil) ignored. (c) under -race: a writer installs generation-stamped tables while 2-16 readers look up every (host,path) from one snapshot: one generation per snapshot, "
+                 "complete and sorted, generations monotone and within the writer's window. Non-trivial = (a) text with >=2 commands and >=1 hostile token that passes the line grammar; (b) history containing "
+                 "invalid followed by valid; (c) workload with >=2 readers and >=2 routes. Thorough adds native fuzzing of the text oracle."),
+        "technique": "rapid grammar-based robustness + metamorphic sentinel test; model-based update histories through the real loop; race-detector workload with generation oracle; native go fuzzing (thorough)",
+        "level_text": "Hostile configuration texts and RouteDef slices are searched for panics and partial acceptance; update histories are replayed through the unmodified watchBackend loop (package-main copy) against a last-good model; concurrent readers check snapshot consistency while tables are replaced, under the race detector. Exploration only.",
+        "level_note": "The scheduler is not controlled: interleavings are sampled on 16 cores, the race detector flags unsynchronised pairs that execute. The loop's validity oracle is the harness's own line-shape model.",
+        "assumptions": COMMON_ASSUME + ["the copy of main.go compiled into the harness is refreshed from /repo on every run"],
+    },
     "C05": {
         "units": [{"pkg": "./c05", "shards": 4, "shards_thorough": 16, "timeout": 600}],
         "rule": ("rapid-generated programs of 1-25 well-formed route add/del/weight commands (all documented forms, flexible spacing) over 3 services, 6 hosts in random letter case, "
